@@ -218,6 +218,7 @@ def run(ctx):
             if origin == "generated" or ctx.thorough:
                 for allow, many in itertools.product((False, True), repeat=2):
                     jobs.append((origin, fname, infmt_needed, text, tname, outname, outfmt_needed, True, "conflict", allow, many))
+                    jobs.append((origin, fname, infmt_needed, text, tname, outname, outfmt_needed, False, "conflict", allow, many))  # -o alone
     jobs.sort(key=lambda j: -len(j[3]))
     pmap(ctx, worker, jobs, chunk=16)
     subprocess_cases(ctx, inputs)
